@@ -26,6 +26,7 @@ type SStep struct {
 	Reason  bool     `json:"reason,omitempty"`
 	Garbage int      `json:"garbage,omitempty"`
 	Kind    int      `json:"kind,omitempty"`
+	Then    string   `json:"then,omitempty"` // session steps: "close" or "reset" right behind the envelope, without waiting for the client
 }
 
 // PlanC08 is one scripted-server run against a real client channel.
@@ -61,6 +62,9 @@ func genSStep(t *simrt.Tape) SStep {
 			s.Schemes = [][]string{{"guest"}, {"plain", "key"}, {}, {"bogus"}, {"guest", "guest"}}[t.Draw(5)]
 		}
 		s.RT = t.Draw(4) == 0
+		if t.Draw(5) == 0 {
+			s.Then = []string{"close", "reset"}[t.Draw(2)]
+		}
 		return s
 	case 9:
 		return SStep{Op: "data", Kind: t.Draw(4)}
@@ -228,6 +232,14 @@ func runC08(w *World, pi interface{}) {
 				if s := fstr(m, "state"); s == "failed" || s == "finished" {
 					terminalSent.Set()
 				}
+				if st.Then == "close" {
+					peer.Close()
+					return n
+				}
+				if st.Then == "reset" {
+					peer.Reset()
+					return n
+				}
 				if fstr(m, "state") == "negotiating" && fstr(m, "encryption") == "tls" && fstr(last, "state") == "negotiating" && p.TLSCfg {
 					// a confirmation of TLS: a real server upgrades now
 					peer.reader.WaitFor(time.Second)
@@ -382,7 +394,13 @@ func runC08(w *World, pi interface{}) {
 	// (only when the client demonstrably consumed that answer: its own state shows it)
 	consumed := fstr(ret.Frame, "state") == "failed" || fstr(ret.Frame, "state") == "finished"
 	if lastSent != nil && (fstr(lastSent, "state") == "failed" || fstr(lastSent, "state") == "finished") && p.Faults.Benign() && consumed {
-		if !peer.RemoteClosed().WaitFor(60 * time.Second) {
+		// (the client's end of the link, not what the scripted server can still read: the server
+		// may have closed or reset its own end right behind the answer)
+		closedByClient := func() bool { return peer.Link != nil && peer.Link.A.IsClosed() }
+		if peer.Link == nil {
+			closedByClient = func() bool { return peer.RemoteClosed().IsSet() }
+		}
+		if !w.Eventually(60*time.Second, closedByClient) {
 			w.Violate("C08.not-closed-after-terminal", sig("state="+fstr(lastSent, "state")), "the server answered %s but the client did not close its connection within 60 s\n%s", fstr(lastSent, "state"), h.Dump(60))
 		}
 	}
@@ -402,7 +420,7 @@ func init() {
 		MaxSim:    2 * time.Hour,
 		PanicRule: "C08.panic",
 		Rule: "plans = (scripted server word of <= 12 steps answering one step per client envelope over {protocol-correct answer, explicit session envelope in any of 7 states incl. regressions with id none/same/changed, option lists empty/unknown/duplicated, " +
-			"confirmations not requested, scheme lists, round-trip data, arbitrary from/to, data envelope, garbage, half frame, FIN, RST, silence}, what it sends after the client reported establishment, client encryption selector, authenticator, TLS configuration, " +
+			"confirmations not requested, scheme lists, round-trip data, arbitrary from/to, data envelope, garbage, half frame, FIN, RST, silence; a session envelope may be followed at once by FIN or RST}, what it sends after the client reported establishment, client encryption selector, authenticator, TLS configuration, " +
 			"EstablishSession deadline, server->client link faults); non-trivial = the real client connected; distinct = distinct (plan JSON, event-log hash)",
 	})
 }
